@@ -79,7 +79,10 @@ class HPOracle:
         MZ = M @ Z
         sv = np.linalg.svd(MZ, compute_uv=False)
         self.unique = bool(MZ.shape[1] == 0 or (sv.size >= MZ.shape[1] and sv[-1] > 1e-10 * sv[0]))
-        self.cond = float(sv[0] / sv[-1]) if (sv.size and sv[-1] > 0) else float("inf")   # cond of the reduced LS matrix
+        if MZ.shape[1] == 0:
+            self.cond = 1.0                                      # the constraints alone determine the trend
+        else:
+            self.cond = float(sv[0] / sv[-1]) if (sv.size and sv[-1] > 0) else float("inf")   # cond of the reduced LS matrix
         if MZ.shape[1]:
             P = np.linalg.lstsq(MZ, np.eye(MZ.shape[0]), rcond=None)[0]      # pseudo-inverse by least squares
         else:
